@@ -47,4 +47,17 @@ theorem C01_blockers_known :
       [ ("x/model", "abic.go", "EndBlocker"), ("x/node", "abci.go", "BeginBlocker"), ("x/node", "abci.go", "EndBlock"),
         ("x/order", "abic.go", "EndBlocker"), ("x/sao", "abci.go", "EndBlocker") ] := by decide
 
+/-- the model's operation alphabet covers every message the six modules accept: these are all the handlers there are, one
+    per constructor of `Op` (`binding`, `didupdate`, `payaddr`; `addv`, `claim`, `create`, `remv`, `reset`; `cancel`, `complete`,
+    `migrate`, `ready`, `recover`, `renew`, `report`, `store`, `terminate`, `perm`). A new handler changes this list and has to
+    be modelled before any theorem over "every operation" speaks about the code again. -/
+theorem C01_every_message_is_modelled :
+    Generated.msgHandlers.map (fun x => (x.1, x.2.2)) =
+      [ ("x/did/keeper", "Binding"), ("x/did/keeper", "Update"), ("x/did/keeper", "UpdatePaymentAddress"),
+        ("x/node/keeper", "AddVstorage"), ("x/node/keeper", "ClaimReward"), ("x/node/keeper", "Create"),
+        ("x/node/keeper", "RemoveVstorage"), ("x/node/keeper", "Reset"),
+        ("x/sao/keeper", "Cancel"), ("x/sao/keeper", "Complete"), ("x/sao/keeper", "Migrate"), ("x/sao/keeper", "Ready"),
+        ("x/sao/keeper", "RecoverFaults"), ("x/sao/keeper", "Renew"), ("x/sao/keeper", "ReportFaults"), ("x/sao/keeper", "Store"),
+        ("x/sao/keeper", "Terminate"), ("x/sao/keeper", "UpdataPermission") ] := by decide
+
 end SaoVerif
